@@ -348,7 +348,11 @@ def _sf_exc(S, a, exc):
     return [("on failure closing is still attempted, so the failure gets recorded and the data does not become visible as valid",
              g.close_calls >= 1),
             ("the failure is remembered and thrown back into the source before it is re-raised "
-             "(unless closing itself failed)", S.Or(g.throw_calls >= 1, g.close_calls >= 1))]
+             "(unless closing itself failed)", S.Or(g.throw_calls >= 1, g.close_calls >= 1)),
+            ("whatever exception leaves save_from is on record in got_exception - ALSO when it is the final close that failed (the last "
+             "metadata write, the rename): the saver runs in a thread of its own, and the processor's final check of got_exception is the "
+             "only way that failure reaches the caller (after a kill of the mailbox the caller already gets the kill's reason)",
+             S.Or(g.saw_kill, S.Not(S.is_none(a.self.got_exception))))]
 
 
 def _sf_inv(S, a):
@@ -398,7 +402,7 @@ def _sf_inv4(S, a):
 save_from = REG.add(Contract(
     FC, "Saver.save_from",
     params=dict(self=SF_SAVER, source=IterT(), rechunk="bool", executor="V"),
-    requires=lambda S, a: [("the saver is open", S.Not(a.self.closed))],
+    requires=lambda S, a: [("the saver is open and has no failure on record", S.And(S.Not(a.self.closed), S.is_none(a.self.got_exception)))],
     ensures=_sf_ens,
     raises={"Any": lambda S, a: S.true},
     exc_ensures=_sf_exc,
